@@ -1,16 +1,10 @@
-(* Model of src/concat/mod.rs (the stream concatenator `BroCatli`) and of the
-   deserialize / operate / serialize wrapper of src/ffi/broccoli.rs.
-   Definitions only; proofs are in proofs/Concat_proofs.v.
-
-   Conventions
-   * u8 / u16 / u64 / usize values are N; every Rust operation that can panic in a build
-     with overflow checks (the dev profile the harness runs) is an explicit `Panic`:
-     slice indexing, `split_at`, `clone_from_slice` length mismatch, `-` on unsigned,
-     `+`/`*` on u8, shifts by >= the bit width, `assert!`, `unwrap`.
-     usize additions of buffer offsets are plain `+` (they are bounded by a slice length).
-   * byte buffers are `list N`; the output buffer is modelled in full (`out`, `out_off`)
-     because the code reads back a byte it has just written (`*out_offset -= 1`).
-   * loops: structural recursion on a nat count taken from the loop bound. *)
+(* HISTORICAL model: src/concat/mod.rs as it was before the repairs
+   bc0b749, 1b792a2, 3985c2c, 43a0d2f, a559e26 (see known_findings.json).  It is a verbatim
+   copy of the faithful model that was compared call by call with that code (0 disagreements
+   on the runs of the exploration phase, panics included); it is kept only so that the
+   defects stay documented as machine-checked `_refuted` witnesses (proofs/Concat_findings.v),
+   each of which was replayed on the real pre-fix code.  Nothing else depends on it.
+   Use with `Require` (not `Import`): every name here shadows one of model/Concat.v. *)
 From Coq Require Import NArith List Bool.
 From V Require Import lib.Words.
 Import ListNotations.
